@@ -1002,7 +1002,12 @@ func (p *sshFxpMkdirPacket) UnmarshalBinary(b []byte) error {
 		return err
 	} else if p.Path, b, err = unmarshalStringSafe(b); err != nil {
 		return err
-	} else if p.Flags, _, err = unmarshalUint32Safe(b); err != nil {
+	} else if p.Flags, b, err = unmarshalUint32Safe(b); err != nil {
+		return err
+	}
+	// The attributes are not used, but a packet whose attribute block is
+	// shorter than its flags announce is malformed.
+	if _, _, err = unmarshalFileStat(p.Flags, b); err != nil {
 		return err
 	}
 	return nil
